@@ -33,8 +33,8 @@ PROP = {
     "id": "C03",
     "thm_module": "Tyme.Thm.C03",
     "thm_file": "Tyme/Thm/C03.lean",
-    "lean_targets": ["Tyme.Thm.C03", "Tyme.Facts.C03Leap"],
-    "fact_files": [("Tyme/Facts/C03Leap.lean", "Tyme.Facts.C03Leap")],
+    "lean_targets": ["Tyme.Thm.C03", "Tyme.Facts.C03Leap", "Tyme.Thm.C02b"],
+    "fact_files": [("Tyme/Facts/C03Leap.lean", "Tyme.Facts.C03Leap"), ("Tyme/Thm/C02b.lean", "Tyme.Thm.C02b")],
     "audit_files": ["Tyme/Lemmas/Lunar.lean", "Tyme/Model/Lunar.lean", "Tyme/Model/Eph.lean", "Tyme/Model/RealEph.lean",
                     "Tyme/Facts/Months.lean", "Tyme/Facts/MonthsFact.lean", "Tyme/Basic/Packed.lean", "Tyme/Model/LeapTable.lean", "Tyme/Facts/C03Leap.lean"],
     "gen": [gen_eph, gen_c03],
